@@ -218,6 +218,25 @@ CLAIMED = {
              'cache being written before it is read for every atom is the loop-carried fact used by C04.',
         technique='exact rational/trigonometric normal forms; per-iteration loop snapshots; symmetry oracle',
     ),
+    'C14': dict(
+        category='other',
+        text='Induction over the operation history: the representation invariant of Crystal_Array (0 <= n_crystal <= n_alloc, '
+             'entries [0, n_crystal) sorted by complete name and unique, each owning name and atoms and carrying the volume of '
+             'its own cell) holds after Crystal_ArrayInit and is preserved by every abstract path of Crystal_ExtendArray, '
+             'Crystal_AddCrystal and Crystal_ReadFile: appends are dominated by the capacity test or a successful in-place '
+             'extension of the same array object (new vector of n_alloc + n_new entries, [0, n_crystal) moved); the appended '
+             'slot is crystal[old n_crystal] and receives a tested deep copy; qsort over the current n_crystal with the '
+             'comparator that agrees with the bsearch matcher follows the last append; the name is looked up over all entries '
+             'first and a match is an error; the recomputed volume is that of the inserted entry / of every entry after the '
+             'reader\'s sort; no path extends the built-in array; every failure exit has stored nothing into the collection or '
+             'calls a helper whose summary truncates it back to its entry size; lookups return Crystal_MakeCopy (all fields, '
+             'own name, own n_atom atoms); the list holds duplicates of the names of [0, n_crystal) and a NULL terminator; '
+             'Crystal_ArrayFree releases every entry, the vector and the record.',
+        design_ref='DESIGN.md section 2, C14',
+        note='Decided per operation under the invariant as precondition; aliases kept by user code, the order produced by libc '
+             'qsort/bsearch and the parsing of file bytes are outside. Fixed on this tree: F9, F10, F11a-c.',
+        technique='typestate / representation-invariant preservation on abstract paths with memory cells and loop summaries',
+    ),
     'C16': dict(
         category='other',
         text='Whole-library effect analysis (~200 functions, 1 200+ writes): every write is rooted in a local, fresh heap, an '
